@@ -1152,3 +1152,29 @@ def explore_many(plans, workers=16):
         for i, st, res in pool.imap_unordered(_plan_worker, range(len(plans)), chunksize=1):
             out[i] = (st, res)
     return out
+
+
+# ----------------------------------------------------------------------------------------------
+# directions of angle-valued symbolic numbers
+# ----------------------------------------------------------------------------------------------
+def direction(sn, c=None):
+    """unnormalised (cos-like, sin-like) direction of an angle-valued SN (degrees or radians) that is
+    +-(one derived arctan2/arcsin angle) + k*90deg, or a linear form of declared angle variables"""
+    c = c or CTX
+    a = sn if sn.ang[2] == 1 else sn.radians()
+    co = {k: v for k, v in a.ang[0].items() if v != 0}
+    if len(co) == 1:
+        (nm, n), = co.items()
+        if nm in c.angdefs and n in (1, -1):
+            x, y = c.angdefs[nm]
+            if n == -1:
+                y = -y
+            k = a.ang[1]
+            if k % 90 != 0:
+                raise Unsupported('direction: constant %s' % k)
+            cc, ss = [(1, 0), (0, 1), (-1, 0), (0, -1)][int(k // 90) % 4]
+            return x * cc - y * ss, y * cc + x * ss
+    r = a._cs()
+    if r is None:
+        raise Unsupported('direction of a non-angle value')
+    return r
